@@ -87,6 +87,8 @@ pub struct Cfg {
     /// faults Partition/Crash/Expire/Release/WipeNode at operation boundaries)
     pub fine_faults: bool,
     pub max_partitions: u32,
+    /// offer lease expiry on a single node (clock skew); ExpireAll is always offered
+    pub expire_one: bool,
 }
 
 #[derive(Clone, Copy, Debug, Serialize, Deserialize, PartialEq, Eq)]
@@ -841,7 +843,7 @@ impl World {
             v.push(Op::ExpireAll);
         }
         v.extend(faults);
-        if fine || !any_busy {
+        if self.cfg.expire_one && (fine || !any_busy) {
             for n in &held {
                 v.push(Op::Expire(*n));
             }
